@@ -100,7 +100,7 @@ func (delayPool) Put(v interface{}) { time.Sleep(3 * time.Millisecond) }
 // a reader with the default handlers while the writer sits inside the transport for longer than the
 // handlers' own write deadline (1 s): the pong / close echo cannot get the connection, and that must be
 // harmless — the reader goes on and delivers what follows (C11 "does not poison the connection")
-func runSchedBlockedWriterReader(seed int64, r *rand.Rand) *scenario {
+func runSchedBlockedWriterReader(seed int64, r *rand.Rand, variant int) *scenario {
 	sc := &scenario{kind: "sched", seed: seed}
 	srv := r.Intn(2) == 0
 	sconn := &schedConn{gate: make(chan struct{}), entered: make(chan struct{}), failFirst: -1}
@@ -115,6 +115,14 @@ func runSchedBlockedWriterReader(seed int64, r *rand.Rand) *scenario {
 	}
 	sconn.rbuf = append(ping.encode(), text.encode()...)
 	c := websocket.VerifNewConn(sconn, srv, 0, 512, nil, nil, nil)
+	// variant 0/1: the writer stays blocked for longer than the pong's one second; the reader must go on.
+	// variant 1 also has a far write deadline set by the application (the pong's own deadline is
+	// one second whatever the application's write deadline is).
+	// variant 2: the writer is released early, while the default pong and an application
+	// WriteControl with another payload both wait for the connection: both frames go out intact.
+	if variant == 1 {
+		c.SetWriteDeadline(time.Now().Add(time.Hour))
+	}
 	var wg sync.WaitGroup
 	var werr error
 	wg.Add(1)
@@ -131,33 +139,75 @@ func runSchedBlockedWriterReader(seed int64, r *rand.Rand) *scenario {
 		err error
 	}
 	done := make(chan res, 1)
+	start := time.Now()
 	go func() { t, p, err := c.ReadMessage(); done <- res{t, p, err} }()
+	other := []byte("keep-alive-other")
+	var oerr error
+	if variant == 2 {
+		time.Sleep(40 * time.Millisecond)
+		wg.Add(1)
+		go func() {
+			defer wg.Done()
+			oerr = c.WriteControl(websocket.PingMessage, other, time.Now().Add(20*time.Second))
+		}()
+		time.Sleep(40 * time.Millisecond)
+		close(sconn.gate)
+	}
 	select {
 	case x := <-done:
 		if x.err != nil || x.t != 1 || string(x.p) != "behind-the-ping" {
 			sc.violate("writer blocked in the transport for longer than the ping handler's deadline: ReadMessage returned (%d, %q, %v); the message behind the ping must still be delivered", x.t, x.p, x.err)
 		}
-	case <-time.After(30 * time.Second):
-		sc.violate("ReadMessage did not return while the writer was blocked in the transport")
+	case <-time.After(10 * time.Second):
+		sc.violate("ReadMessage did not return within 10s while the writer was blocked in the transport (the default pong waits one second at most)")
 	}
-	close(sconn.gate)
+	if variant != 2 {
+		close(sconn.gate)
+	}
 	wg.Wait()
+	elapsed := time.Since(start)
 	if werr != nil {
 		sc.violate("the held data frame failed: %v", werr)
+	}
+	if oerr != nil {
+		sc.violate("the application's WriteControl failed: %v", oerr)
 	}
 	if err := c.WriteMessage(1, []byte("after")); err != nil {
 		sc.violate("connection poisoned by the pong that could not be sent: %v", err)
 	}
+	if variant == 2 {
+		sconn.mu.Lock()
+		var wire []byte
+		for _, w := range sconn.writes {
+			wire = append(wire, w...)
+		}
+		sconn.mu.Unlock()
+		frames, rest, bad := rfcDecode(wire)
+		if bad != "" || len(rest) > 0 {
+			sc.violate("wire is not a sequence of whole frames: %s, %d stray bytes", bad, len(rest))
+		}
+		pongs, pings, strange := 0, 0, 0
+		for _, f := range frames {
+			switch {
+			case f.op == 10 && string(f.payload) == "are-you-there":
+				pongs++
+			case f.op == 9 && bytes.Equal(f.payload, other):
+				pings++
+			case f.op == 9 || f.op == 10:
+				strange++
+			}
+		}
+		if strange > 0 || pings != 1 || pongs > 1 || (pongs == 0 && elapsed < 700*time.Millisecond) {
+			sc.violate("default pong and a concurrent WriteControl waited for the connection together: wire has %d pong(s) echoing the ping, %d application ping(s), %d other control frame(s); expected 1, 1, 0", pongs, pings, strange)
+		}
+	}
 	sc.emit(fmt.Sprintf("sched seed=%d srv=%d blocked-writer-reader", seed, b2i(srv)), "ok")
-	sc.tag("blocked-writer-reader")
+	sc.tag(fmt.Sprintf("blocked-writer-reader:%d", variant))
 	return sc
 }
 
 func runSchedScenario(seed int64) *scenario {
 	r := rand.New(rand.NewSource(seed))
-	if r.Intn(25) == 0 {
-		return runSchedBlockedWriterReader(seed, r)
-	}
 	sc := &scenario{kind: "sched", seed: seed}
 	srv := r.Intn(2) == 0
 	sconn := &schedConn{gate: make(chan struct{}), entered: make(chan struct{}), failFirst: -1}
@@ -519,10 +569,20 @@ func runConcScenario(seed int64) *scenario {
 		err       error
 	}
 	conns := make([]*cstate, nconn)
+	mixed := r.Intn(3) == 0
+	if mixed {
+		sc.tag("conc:mixed-sizes")
+	}
 	for i := range conns {
 		cs := &cstate{srv: r.Intn(2) == 0, nego: r.Intn(2) == 0, t: newTConn(&evlog{})}
 		cs.t.quiet = true
-		cs.c = websocket.VerifNewConn(cs.t, cs.srv, 0, wbuf, pool, nil, nil)
+		wb := wbuf
+		if mixed {
+			// connections with different WriteBufferSize on one pool (the documentation advises one
+			// pool per size; taking and returning buffers must balance all the same)
+			wb = []int{16, 125, 1024, 4096}[r.Intn(4)]
+		}
+		cs.c = websocket.VerifNewConn(cs.t, cs.srv, 0, wb, pool, nil, nil)
 		if cs.nego {
 			websocket.VerifSetCompression(cs.c, nil)
 		}
